@@ -81,6 +81,18 @@ fn stat_event(root: &Path, segs: &Value) -> Value {
     }
 }
 
+/// the same request through the real binary on a loopback socket (production entry point only)
+fn serve_one_wire(q: &Value, method: &str, obs_mode: &str, addr: std::net::SocketAddr) -> Value {
+    let bytes = request_bytes(q, method);
+    let raw = crate::d_wire::exchange(addr, &bytes, std::time::Duration::from_secs(5)).unwrap_or_default();
+    let mut r = project(&raw, obs_mode);
+    r["outcome"] = json!(if raw.is_empty() { "no_response" } else { "ok" });
+    let mut qq = q.clone();
+    qq["method"] = json!(method);
+    qq["entry"] = json!("prod");
+    json!({"ev":"Serve","q":qq,"r":r,"target":target_of(q),"surface":"wire"})
+}
+
 fn serve_one(q: &Value, method: &str, obs_mode: &str) -> Value {
     let bytes = request_bytes(q, method);
     let (mock, wire) = Mock::new(bytes);
@@ -106,6 +118,8 @@ pub fn run(o: &Opts) -> i32 {
     let obs_mode = o.get("obs").unwrap_or("full").to_string();
     let triple = o.get("triple").is_some();
     let stats = o.get("stats").is_some();
+    let wire_bin: Option<String> = o.get("bin").map(|s| s.to_string());
+    crate::d_wire::set_logdir(&scratch);
     let mut out = Out::create(o.req("out"));
     let mut worlds: BTreeMap<u64, Value> = BTreeMap::new();
     for w in read_ndjson(o.req("worlds")) {
@@ -130,6 +144,33 @@ pub fn run(o: &Opts) -> i32 {
             let (_top, root) = materialise(w, &scratch);
             std::env::set_current_dir(&root).expect("chdir");
             out.emit(&json!({"ev":"Mount","world":w,"cfg":cfg_default()}));
+            if let Some(bin) = &wire_bin {
+                // wire surface: the real binary started in this root; every production-entry case goes over a socket
+                let port = crate::d_wire::free_port();
+                let addr: std::net::SocketAddr = format!("127.0.0.1:{}", port).parse().unwrap();
+                let srv = match crate::d_wire::Srv::start(bin, &root, &[], &[format!("--port={}", port), "--thread-count=4".to_string()], &[addr], None, &format!("w{}", wid)) {
+                    Ok(s) => s,
+                    Err(e) => {
+                        eprintln!("start failed: {}", e);
+                        return 2;
+                    }
+                };
+                for c in cases.iter() {
+                    if c["entry"].as_str().unwrap_or("prod") != "prod" {
+                        continue;
+                    }
+                    if triple {
+                        for m in ["GET", "HEAD", "OPTIONS"] {
+                            out.emit(&serve_one_wire(c, m, &obs_mode, addr));
+                        }
+                    } else {
+                        let m = c["method"].as_str().unwrap_or("GET").to_string();
+                        out.emit(&serve_one_wire(c, &m, &obs_mode, addr));
+                    }
+                }
+                srv.stop();
+                continue;
+            }
             if stats {
                 let mut seen = HashSet::new();
                 for c in cases.iter() {
